@@ -148,7 +148,8 @@ def build_inputs(rng, root):
     p2 = os.path.join(root, 'run', 'plt2_00010')
     diskimg.write_image(diskimg.image_of(sib), p2)
     chk = genchk.gen_checkpoint(rng, nlevels=rng.choice([1, 2]))
-    chkdir = os.path.join(root, 'run', rng.choice(['chk00005', 'chk00005', 'restart7']))
+    # the 'chk' prefix is looked for in the last component only: ancestors holding it must not matter
+    chkdir = os.path.join(root, rng.choice(['run', 'chk_archive', 'old.chk']), rng.choice(['chk00005', 'chk00005', 'restart7', 'restart7']))
     genchk.write_checkpoint(chk, chkdir)
     rpath = os.path.join(root, 'recipe.py')
     with _real_open(rpath, 'w') as f:
